@@ -99,10 +99,12 @@ def _job(name):
         c02_req._G.update({"mir": _G["mir"], "tier": _G["tier"], "budget": _G.get("budget", 600)})
         z3, f, mk = c02_req._setup()
         from mirsym.exec import z3bool
-        segs = templates(_G["tier"])[name]
+        tname, plan = c02_req.split_plan(name)
+        res["plan"] = plan
+        segs = templates(_G["tier"])[tname]
         inp, assume = instantiate(z3, segs)
         ctx, ex = mk(assume)
-        out = c02_req.run_parser(ex, f, inp)
+        out = c02_req.run_parser(ex, f, inp, c02_req.cuts_for(plan, len(inp)))
         res["paths"] = len(out.rets) + len(out.panics)
         res["symex_s"] = round(time.time() - t0, 2)
         solver_s = 0.0
@@ -164,15 +166,15 @@ def role(data, kind):
         return "request:header-line-slice-inside-multibyte-char"
 
 
-def native_check(exe, data, kind):
+def native_check(exe, data, kind, plan=None):
     """-> (deviates?, observation)"""
     if kind == "alloc":
         out = mengine.native_eval(exe, ["reqalloc " + (data.hex() or "-")])[0]
         m = re.search(r"alloc=(\d+)", out)
         big = m is not None and int(m.group(1)) > 65536 + 16 * len(data)
         return big or out.startswith("PANIC"), out
-    out = mengine.native_eval(exe, ["req 0 " + (data.hex() or "-")])[0]
-    return out == "PANIC", out
+    out = mengine.native_eval_guarded(exe, "req %d %s" % (c02_req.native_plan(plan), data.hex() or "-"), timeout=10)
+    return out in ("PANIC", "HANG"), out
 
 
 def concretise_alloc(data):
@@ -219,7 +221,7 @@ def run_part(tier, work, mir):
                 _classify(res, known, {"template": "native probe", "input": d, "kind": "panic", "what": "native probe: panic", "native_dev": n, "native_release": mengine.native_eval(exe_rel, ["req 0 " + (d.hex() or "-")])[0]})
                 break
         return res
-    rs = mengine.pmap(_job, names)
+    rs = mengine.pmap(_job, names + [n + "@bw" for n in names])          # every malformed template also one byte per read
     res["results"] = rs
     for r in rs:
         if r["verdict"] == "unsat":
@@ -237,8 +239,8 @@ def run_part(tier, work, mir):
                 continue
             seen_roles.add(rl)
             rdata = concretise_alloc(data) if f["kind"] == "alloc" else data
-            dev_d, obs_d = native_check(exe, rdata, f["kind"])
-            dev_r, obs_r = native_check(exe_rel, rdata, f["kind"])
+            dev_d, obs_d = native_check(exe, rdata, f["kind"], r.get("plan"))
+            dev_r, obs_r = native_check(exe_rel, rdata, f["kind"], r.get("plan"))
             item = {"template": r["template"], "input": rdata, "kind": f["kind"], "what": f["what"], "native_dev": obs_d, "native_release": obs_r}
             if dev_d or dev_r:
                 _classify(res, known, item)
